@@ -56,6 +56,8 @@ class Result:
             self.fired[k] = self.fired.get(k, 0) + v
         for k, v in world.probes.items():
             self.probes[k] = self.probes.get(k, 0) + v
+        if getattr(world, "eager_tasks", False):
+            self.probes["eager_task_factory_run"] = self.probes.get("eager_task_factory_run", 0) + 1
         if getattr(world, "debug_logging", False):
             self.probes["debug_logging_run"] = self.probes.get("debug_logging_run", 0) + 1
 
@@ -207,7 +209,8 @@ def _safe_run(check, plan):
 
 
 def _work(args):
-    check_id, tier, seed, lo, hi, canary_every = args
+    check_id, tier, seed, lo, hi, canary_every = args[:6]
+    stride, offset = (args[6], args[7]) if len(args) > 6 else (1, 0)
     faulthandler.dump_traceback_later(600, exit=True)
     check = _load_check(check_id)
     space = check.space(tier)
@@ -217,7 +220,11 @@ def _work(args):
         "exempt": 0, "parts": Counter(), "samples": [],
     }
     for i in range(lo, hi):
+        if stride > 1 and i % stride != offset:
+            continue
         plan = space.plan(i, seed)
+        if PYVARIANT:
+            plan["pyvariant"] = PYVARIANT
         r = _safe_run(check, plan)
         agg["n"] += 1
         agg["parts"][plan["part"]] += 1
@@ -403,8 +410,49 @@ def selftest(seed):
 # ----------------------------------------------------------------------------------------------
 # main
 
+PYVARIANT = os.environ.get("VERIF_PYVARIANT_ACTIVE", "")
+VARIANTS = (("O", "python -O (asserts stripped)"), ("W", "python -b, warnings from msmart modules are errors"))
+
+
+def _install_variant():
+    if PYVARIANT == "W":
+        import warnings
+        warnings.filterwarnings("error", module=r"msmart(\..*)?$")
+    if PYVARIANT == "O" and __debug__:
+        raise RuntimeError("variant O requested but the interpreter runs with asserts enabled")
+
+
+def _run_variants(check_id, tier, seed, jobs):
+    """Re-run a sample of the plan space under other interpreter options; returns (summary, lines, exit)."""
+    summary, lines, code = {}, [], 0
+    stride = 9 if tier == "quick" else 6
+    for k, (v, what) in enumerate(VARIANTS):
+        env = dict(os.environ)
+        env["VERIF_PYVARIANT"] = v
+        env["VERIF_SEED"] = str(seed)
+        cmd = [sys.executable, "-B", os.path.join(VERIF, "check.py"), check_id, "--tier", tier, "--no-evidence",
+               "--stride", str(stride), "--offset", str((k * 4 + 1) % stride), "--jobs", str(jobs), "--variant-child"]
+        p = subprocess.run(cmd, capture_output=True, text=True, env=env, cwd=VERIF)
+        out = p.stdout.strip().splitlines()
+        js = [l for l in out if l.startswith("VARIANT-SUMMARY ")]
+        info = json.loads(js[-1][16:]) if js else {"runs": 0}
+        info["what"] = what
+        info["exit"] = p.returncode
+        summary[v] = info
+        if p.returncode != 0:
+            code = max(code, p.returncode)
+            lines.extend(l for l in out if l.startswith(("signature:", "VIOLATION", "HARNESS-ERROR", "  ")) or "x " in l[:14])
+            if p.returncode == 2 and not js:
+                lines.append(f"HARNESS-ERROR variant {v}: {p.stderr[-400:]}")
+    return summary, lines, code
+
+
 def main(argv=None):
     ap = argparse.ArgumentParser()
+    ap.add_argument("--stride", type=int, default=1)
+    ap.add_argument("--offset", type=int, default=0)
+    ap.add_argument("--variant-child", action="store_true")
+    ap.add_argument("--no-variants", action="store_true", help="skip the passes under other interpreter options")
     ap.add_argument("check_id")
     ap.add_argument("--tier", default=os.environ.get("VERIF_TIER", "quick"), choices=["quick", "thorough"])
     ap.add_argument("--replay")
@@ -418,8 +466,20 @@ def main(argv=None):
     seed = int(os.environ.get("VERIF_SEED", "0") or 0)
     t0 = time.time()
 
+    if args.replay and not PYVARIANT:
+        # a replay recorded under other interpreter options is re-executed under them
+        try:
+            with open(args.replay) as f:
+                want = json.load(f)["plan"].get("pyvariant", "")
+        except Exception:
+            want = ""
+        if want:
+            env = dict(os.environ)
+            env["VERIF_PYVARIANT"] = want
+            os.execve(sys.executable, [sys.executable, "-B", os.path.join(VERIF, "check.py")] + list(argv or sys.argv[1:]), env)
     try:
         sys.path.insert(0, VERIF)
+        _install_variant()
         from simkit.seams import HarnessError, import_msmart
         try:
             import_msmart()
@@ -465,7 +525,8 @@ def main(argv=None):
     total = space.total if args.limit is None else min(space.total, args.limit)
     jobs = max(1, min(args.jobs, total))
     chunk = max(1, min(2000, (total + jobs * 4 - 1) // (jobs * 4)))
-    tasks = [(check_id, args.tier, seed, lo, min(lo + chunk, total), 97) for lo in range(0, total, chunk)]
+    tasks = [(check_id, args.tier, seed, lo, min(lo + chunk, total), 97, args.stride, args.offset)
+             for lo in range(0, total, chunk)]
     results = {}
     harness = []
     aborted_early = False
@@ -575,6 +636,18 @@ def main(argv=None):
             hits = known_hits.get(f["sig_prefix"], 0)
             print(f"KNOWN-FINDING: property={check_id} {f['what']} (reproduced {hits}x in this run)")
 
+    variant_summary = {}
+    if (not PYVARIANT and not args.variant_child and not args.no_variants and args.limit is None
+            and exit_code == 0 and not harness and os.environ.get("VERIF_NO_VARIANTS") != "1"):
+        variant_summary, vlines, vcode = _run_variants(check_id, args.tier, seed, jobs)
+        for l in vlines:
+            if l.startswith("VIOLATION"):
+                violation_lines.append(l)
+            else:
+                print(l)
+        exit_code = max(exit_code, vcode)
+    if args.variant_child:
+        print("VARIANT-SUMMARY " + json.dumps({"runs": n, "violations": len(new_fails), "variant": PYVARIANT}))
     wall = time.time() - t0
     if not args.no_evidence:
         sample_plans = [space.plan(j, seed) for j in sorted({0, total // 3, (2 * total) // 3, total - 1})][:4]
@@ -604,6 +677,7 @@ def main(argv=None):
                 "components_real": check.COMPONENTS["real"],
                 "components_stub": check.COMPONENTS["stub"],
                 "batch_digest": batch_digest,
+                "interpreter_variants": variant_summary,
                 "jobs": jobs,
                 "repo": repo_ident(),
             },
@@ -617,7 +691,9 @@ def main(argv=None):
 
     print(f"{check_id} {args.tier}: {n} runs, {len(keys)} distinct, {len(nkeys)} nontrivial, "
           f"{len(ileave)} interleavings, {sum(fired.values())} faults fired, sim {sim_s:.0f}s, wall {wall:.1f}s, "
-          f"violations {len(new_fails)}, known {sum(known_hits.values())}")
+          f"violations {len(new_fails) + sum(v.get('violations', 0) for v in variant_summary.values())}, "
+          f"known {sum(known_hits.values())}"
+          + (f", variants {' '.join(k + ':' + str(v.get('runs', 0)) for k, v in variant_summary.items())}" if variant_summary else ""))
     for line in violation_lines:
         print(line)
     return exit_code
